@@ -206,6 +206,23 @@ pub fn shrink(
                     continue 'outer;
                 }
             }
+            // A structural change invalidates a recorded schedule: search again for a
+            // schedule under which the smaller scenario still fails (seeded, so repeatable).
+            for k in 0..6u64 {
+                let Some(re) = cand.reseeded(k) else { break };
+                if runs >= max_runs {
+                    break 'outer;
+                }
+                runs += 1;
+                if let Ok(r) = run_case(ctx, dir, &re) {
+                    if r.violations.iter().any(|v| v.same_class(target)) {
+                        let next = re.explicit(&r).unwrap_or(re);
+                        cur = next;
+                        cur_report = r;
+                        continue 'outer;
+                    }
+                }
+            }
         }
         break;
     }
@@ -285,6 +302,9 @@ pub fn run_check(ctx: &Ctx, property: &str, level: &str, tier: &str, seed: u64, 
     let harness_err: Mutex<Option<String>> = Mutex::new(None);
     let abort = AtomicBool::new(false);
     let reexec = AtomicUsize::new(0);
+    let bad_cases = AtomicUsize::new(0);
+    let timeouts = AtomicUsize::new(0);
+    let stop_early = AtomicBool::new(false);
 
     println!("check {property}: VERIF_SEED={seed} tier={tier} cases={total} (enumerated {}) threads={threads}", plan.enumerated());
 
@@ -296,10 +316,13 @@ pub fn run_check(ctx: &Ctx, property: &str, level: &str, tier: &str, seed: u64, 
             let abort = &abort;
             let reexec = &reexec;
             let sample = &sample;
+            let bad_cases = &bad_cases;
+            let timeouts = &timeouts;
+            let stop_early = &stop_early;
             s.spawn(move || {
                 let dir = ctx.worker_dir(k);
                 loop {
-                    if abort.load(Ordering::Relaxed) {
+                    if abort.load(Ordering::Relaxed) || stop_early.load(Ordering::Relaxed) {
                         break;
                     }
                     let pos = next.fetch_add(1, Ordering::Relaxed);
@@ -331,7 +354,20 @@ pub fn run_check(ctx: &Ctx, property: &str, level: &str, tier: &str, seed: u64, 
                                     }
                                 }
                             }
+                            let violating = report.violations.iter().any(|v| v.property == property);
+                            // every watchdog kill costs 10 s of wall-clock: a tree on which many simulated
+                            // processes hang is not sampled to the end either
+                            if report.violations.iter().any(|v| v.clause == "hang" && v.fingerprint.contains("timeout"))
+                                && timeouts.fetch_add(1, Ordering::Relaxed) + 1 >= 32
+                            {
+                                stop_early.store(true, Ordering::Relaxed);
+                            }
                             slots.lock().unwrap().push(Slot { idx, report, wall_us });
+                            // A tree on which dozens of cases already fail needs no further sampling
+                            // (and hanging mutants would otherwise cost 10 s per remaining case).
+                            if violating && bad_cases.fetch_add(1, Ordering::Relaxed) + 1 >= 48 {
+                                stop_early.store(true, Ordering::Relaxed);
+                            }
                         }
                         Err(e) => {
                             *harness_err.lock().unwrap() = Some(format!("case {idx}: {}", e.0));
@@ -350,6 +386,20 @@ pub fn run_check(ctx: &Ctx, property: &str, level: &str, tier: &str, seed: u64, 
 
     let mut slots = slots.into_inner().unwrap();
     slots.sort_by_key(|s| s.idx);
+    if stop_early.load(Ordering::Relaxed) {
+        // keep the completed prefix only, so that what is reported does not depend on which
+        // in-flight cases happened to finish
+        let mut frontier = 0usize;
+        for (pos, s) in slots.iter().enumerate() {
+            let expect = sample.as_ref().map(|v| v[pos]).unwrap_or(pos);
+            if s.idx != expect {
+                break;
+            }
+            frontier = pos + 1;
+        }
+        slots.truncate(frontier);
+        println!("stopped early after {} cases: at least 48 of them violate {property} or at least 32 simulated processes hung", slots.len());
+    }
     if let Ok(path) = std::env::var("VERIF_DUMP_HASHES") {
         let mut out = String::new();
         for s in &slots {
@@ -453,7 +503,7 @@ pub fn run_check(ctx: &Ctx, property: &str, level: &str, tier: &str, seed: u64, 
         let dir = ctx.worker_dir(0);
         for (idx, v) in classes.iter().take(4) {
             let case = plan.case(*idx);
-            let (min_case, min_report, runs) = shrink(ctx, &dir, &case, v, if tier == "quick" { 150 } else { 400 });
+            let (min_case, min_report, runs) = shrink(ctx, &dir, &case, v, if tier == "quick" { 400 } else { 1200 });
             let detail = min_report
                 .violations
                 .iter()
